@@ -192,7 +192,7 @@ class RealWorld(env.BaseWorld):
         osm = types.SimpleNamespace(
             makedirs=ev_wrap('fs', os.makedirs, 'makedirs'), remove=ev_wrap('fs', os.remove, 'remove'),
             removedirs=ev_wrap('fs', os.removedirs, 'removedirs'), rmdir=ev_wrap('fs', os.rmdir, 'rmdir'),
-            walk=w_walk, listdir=ev_wrap('fs', os.listdir, 'listdir'), urandom=os.urandom, getpid=lambda: w.pid,
+            walk=w_walk, listdir=ev_wrap('fs', os.listdir, 'listdir'), urandom=(lambda n: env.det_urandom(w, n)), getpid=lambda: w.pid,
             linesep=os.linesep, fspath=os.fspath, sep='/', error=OSError, environ=os.environ)
         opm = types.SimpleNamespace(
             join=os.path.join, split=os.path.split, getsize=ev_wrap('fs', os.path.getsize, 'stat'),
